@@ -315,7 +315,22 @@ EXTRA = {
     "C27": " Also decided: the loop body never reads initial_index, and _export_operators tests _is_subdomain(operator.domain, "
            "samples.domain) in this order.",
 }
-for _k, _v in EXTRA.items():
-    if _k in CLAIMED:
-        _t = CLAIMED[_k]
-        CLAIMED[_k] = (_t[0], _t[1] + _v, _t[2], _t[3])
+EXTRA2 = {
+    "C04": " Also decided: the Hamiltonian's value with and without the metric has the same inputs; constants produced by specialisation return the zero metric; optional state (a transformation that was not given) is dereferenced only after a None test.",
+    "C09": " Also decided: module-level memo keys determine the cached value; back-end transforms pass no in-place option; a codomain is refused as soon as one axis mismatches.",
+    "C16": " Also decided: the quasi-Newton history is re-initialised before the base loop in every run.",
+    "C18": " Also decided: classic KL samples are drawn from the Hamiltonian reduced by the point estimates; the geoVI prior noise takes its dtype from the prior energy; complex white noise behind the nifty.re metric samples has unit variance per real degree of freedom; refusals are raised; frozen parameters enter the frozen metric with zero tangents.",
+    "C19": " Also decided: the KL value keeps the prior energy of every constant key over repeated specialisation and mirrored samples are exact negatives (rules shared with C04 / C18).",
+    "C20": " Also decided: the MAP / zero-sample curvature is the Hamiltonian's at the current position and the eager and compiled CG behind every solve agree term by term (rules shared with C19 / C15); the entry point raises its refusals.",
+    "C26": " Also decided: shareRange tiles range(nwork) (case split on integer terms); statistics methods never return the stored expansion point; Welford's product is Hermitian.",
+    "C28": " Also decided: mode lengths and log quantities of a harmonic grid come from one mode-distributor result; the classic Matern fluctuation amplitude, evaluated as a term on a two-bin model, is the standard deviation of the realisations.",
+    "C30": " Also decided: no log(1+x) / exp(x)-1 spelled out; value_reshaper's case table is complete; inverse transforms apply no clamp; log-space tables hold unshifted quantiles and each of scale / loc is applied exactly once.",
+    "C32": " Also decided: a turning or diverging sub-tree is never merged (unconditional disjuncts of the keep-old predicate); the sub-tree U-turn loop index stays in its declared range; a NaN weight difference never yields a positive transition probability (abstract evaluation).",
+    "C33": " Also decided: norm special cases are keyed by the exact order; unstack counts pieces along the split axis; where() chooses its broadcast target among all three operands; mean_and_std squares moduli; a specification known to be None is not itself flattened.",
+    "C34": " Also decided: the analytic prior term uses the expansion point first and the inner product of the mean with itself."
+}
+for _d in (EXTRA, EXTRA2):
+    for _k, _v in _d.items():
+        if _k in CLAIMED:
+            _t = CLAIMED[_k]
+            CLAIMED[_k] = (_t[0], _t[1] + _v, _t[2], _t[3])
